@@ -4,7 +4,7 @@
    stored records stay related by the abstraction.  Spec-level sanity lemmas. *)
 From ZV Require Import Common.Bytes Common.BytesFacts Data.Consts Data.Base Data.BaseFacts Data.MapEq Data.Map Data.MapZ Data.MapL Data.MapK
   Data.Spec Data.SpecZ Data.SpecL Data.SpecK Data.Run Data.RepColl Data.RepHS Data.RepL Data.RepZ Data.RepState
-  Data.RefHS Data.RefCmd Data.RefK.
+  Data.RefHS Data.RefCmd Data.RefK Data.RepRead Data.RefL.
 From Coq Require Import Lia ZifyBool.
 Open Scope Z_scope.
 
@@ -15,6 +15,8 @@ Definition covered (c : cmd) : bool :=
   | QHlen _ | QHget _ _ | QHexists _ _ | QHmget _ _ | QHgetall _ | QHkeys _ | QHvals _ | QHkeyexist _
   | CSadd _ _ | CSrem _ _ | CSpop _ _ | CSclear _
   | QScard _ | QSismember _ _ | QSmembers _ | QSrandmember _ _ | QSkeyexist _ => true
+  | CL _ (LCpush _ _) | CL _ (LCpop _) | CL _ (LCset _ _) | CL _ (LCtrim _ _) | CL _ LCclear | CL _ LCinvalid => true
+  | QL _ _ => true
   | CK (KCsetrange _ off _) => 0 <=? off
   | CK _ | QK _ => true
   | _ => false
@@ -46,6 +48,7 @@ Section Seq.
     ss_rep : RepS compact clock ms;
     ss_hash : rel2 (@sim bytes) (m_hash ms) (s_hash ss);
     ss_set : rel2 (@sim unit) (m_set ms) (s_set ss);
+    ss_list : rel2 (fun l a => abs_l l = a) (m_list ms) (s_list ss);
     ss_kv : m_kv ms = s_kv ss;
     ss_kvnd : NoDup (map fst (m_kv ms)) }.
 
@@ -53,15 +56,22 @@ Section Seq.
   Proof. unfold sim, abs_c. cbn. apply meq_refl. constructor. Qed.
 
   Lemma simS_init : simS 0 m_init s_init.
-  Proof. constructor; cbn; [apply RepS_init|constructor|constructor|reflexivity|constructor]. Qed.
+  Proof. constructor; cbn; [apply RepS_init|constructor|constructor|constructor|reflexivity|constructor]. Qed.
+
+  (* a push must not use up the 2^61 sequence numbers on its side of the list *)
+  Definition admissible (ms : mstate) (c : cmd) : Prop :=
+    match c with
+    | CL key (LCpush tail vs) => push_in_bounds (alook empty_lcoll key (m_list ms)) tail (Z.of_nat (length vs))
+    | _ => True
+    end.
 
   (* one covered command: equal replies, related successor states *)
-  Theorem step_ref clock ts c ms ss : simS clock ms ss -> 0 <= clock < ts -> covered c = true ->
+  Theorem step_ref clock ts c ms ss : simS clock ms ss -> 0 <= clock < ts -> covered c = true -> admissible ms c ->
     snd (map_step compact ts c ms) = snd (spec_step c ss) /\
     simS ts (fst (map_step compact ts c ms)) (fst (spec_step c ss)).
   Proof.
-    intros S L Cv. pose proof (map_step_rep compact clock ts c ms (ss_rep _ _ _ S) L) as Rn.
-    destruct S as [Rs Sh Sst Skv Snd].
+    intros S L Cv Adm. pose proof (map_step_rep compact clock ts c ms (ss_rep _ _ _ S) L) as Rn.
+    destruct S as [Rs Sh Sst Sl Skv Snd].
     pose proof (rs_hash _ _ _ Rs) as RH. pose proof (rs_set _ _ _ Rs) as RSt.
     assert (LH : forall key, RepC compact clock (alook empty_coll key (m_hash ms)) /\
                              sim (alook empty_coll key (m_hash ms)) (alook [] key (s_hash ss))).
@@ -80,7 +90,7 @@ Section Seq.
                        (fst (let '(m, r) := aupd [] key sf (s_hash ss) in (Build_sstate m (s_set ss) (s_zset ss) (s_list ss) (s_kv ss), r)))).
     { intros key mf sf [W1 W2] Rn'. unfold aupd in *.
       destruct (mf (alook empty_coll key (m_hash ms))) as [c' r1]. destruct (sf (alook [] key (s_hash ss))) as [a' r2].
-      cbn [fst snd] in *. split; [exact W1|]. constructor; cbn [m_hash m_set m_kv s_hash s_set s_kv]; auto.
+      cbn [fst snd] in *. split; [exact W1|]. constructor; cbn [m_hash m_set m_list m_kv s_hash s_set s_list s_kv]; auto.
       apply rel2_aput; assumption. }
     assert (SW : forall key (mf : scoll -> scoll * reply) (sf : sset -> sset * reply),
                swref mf sf (alook empty_coll key (m_set ms)) (alook [] key (s_set ss)) ->
@@ -92,7 +102,7 @@ Section Seq.
                        (fst (let '(m, r) := aupd [] key sf (s_set ss) in (Build_sstate (s_hash ss) m (s_zset ss) (s_list ss) (s_kv ss), r)))).
     { intros key mf sf [W1 W2] Rn'. unfold aupd in *.
       destruct (mf (alook empty_coll key (m_set ms))) as [c' r1]. destruct (sf (alook [] key (s_set ss))) as [a' r2].
-      cbn [fst snd] in *. split; [exact W1|]. constructor; cbn [m_hash m_set m_kv s_hash s_set s_kv]; auto.
+      cbn [fst snd] in *. split; [exact W1|]. constructor; cbn [m_hash m_set m_list m_kv s_hash s_set s_list s_kv]; auto.
       apply rel2_aput; assumption. }
     assert (Keep : simS ts ms ss).
     { constructor; auto. eapply RepS_mono; [|exact Rs]. lia. }
@@ -121,12 +131,37 @@ Section Seq.
     - destruct (LS key) as [R1 S1]. destruct (set_reads_ref compact clock key _ _ R1 S1) as (_ & _ & a & _). cbn [fst snd]. split; [exact a|exact Keep].
     - destruct (LS key) as [R1 S1]. destruct (set_reads_ref compact clock key _ _ R1 S1) as (_ & _ & _ & a & _). cbn [fst snd]. split; [apply a|exact Keep].
     - destruct (LS key) as [R1 S1]. destruct (set_reads_ref compact clock key _ _ R1 S1) as (_ & _ & _ & _ & a). cbn [fst snd]. split; [exact a|exact Keep].
+    - (* list write *)
+      assert (RL : RepL compact clock (alook empty_lcoll key (m_list ms))) by (apply alook_rec; [apply RepL_empty|apply (rs_list _ _ _ Rs)]).
+      assert (AB : abs_l (alook empty_lcoll key (m_list ms)) = alook [] key (s_list ss)).
+      { apply (rel2_alook (fun l a => abs_l l = a)); [reflexivity|exact Sl]. }
+      assert (W : snd (MapL.lstep compact ts key c (alook empty_lcoll key (m_list ms))) = snd (SpecL.lstep key c (alook [] key (s_list ss))) /\
+                  abs_l (fst (MapL.lstep compact ts key c (alook empty_lcoll key (m_list ms)))) = fst (SpecL.lstep key c (alook [] key (s_list ss)))).
+      { rewrite <- AB. destruct c; try discriminate.
+        - apply (lpush_ref compact clock); auto.
+        - apply (lpop_ref compact clock); auto.
+        - apply (lset_ref compact clock); auto.
+        - apply (ltrim_ref compact clock); auto.
+        - apply (lclear_ref compact clock); auto.
+        - cbn. split; reflexivity. }
+      destruct W as [W1 W2]. unfold aupd in *.
+      destruct (MapL.lstep compact ts key c (alook empty_lcoll key (m_list ms))) as [l' r1].
+      destruct (SpecL.lstep key c (alook [] key (s_list ss))) as [a' r2]. cbn [fst snd] in *.
+      split; [exact W1|]. constructor; cbn [m_hash m_set m_list m_kv s_hash s_set s_list s_kv]; auto.
+      apply rel2_aput; assumption.
+    - (* list read *)
+      assert (RL : RepL compact clock (alook empty_lcoll key (m_list ms))) by (apply alook_rec; [apply RepL_empty|apply (rs_list _ _ _ Rs)]).
+      assert (AB : abs_l (alook empty_lcoll key (m_list ms)) = alook [] key (s_list ss)).
+      { apply (rel2_alook (fun l a => abs_l l = a)); [reflexivity|exact Sl]. }
+      cbn [fst snd]. split; [|exact Keep]. rewrite <- AB.
+      destruct (list_reads_ref compact clock key _ RL) as (a1 & a2 & a3).
+      destruct q; [exact a1|exact a2|apply (lrange_ref compact clock); exact RL|apply a3|reflexivity].
     - (* kv write *)
       assert (KR : MapK.kstep ts c (m_kv ms) = SpecK.kstep c (s_kv ss)).
       { rewrite <- Skv. apply kstep_ref; [exact Snd|]. destruct c; auto. apply Z.leb_le; exact Cv. }
       rewrite KR. assert (KN : NoDup (map fst (fst (SpecK.kstep c (s_kv ss))))) by (apply kstep_nodup; rewrite <- Skv; exact Snd).
       rewrite KR in Rn. destruct (SpecK.kstep c (s_kv ss)) as [m r]. cbn [fst snd] in *. split; [reflexivity|].
-      constructor; cbn [m_hash m_set m_kv s_hash s_set s_kv]; auto.
+      constructor; cbn [m_hash m_set m_list m_kv s_hash s_set s_list s_kv]; auto.
     - (* kv read *)
       cbn [fst snd]. rewrite Skv. split; [apply kquery_ref|exact Keep].
   Qed.
@@ -143,22 +178,30 @@ Section Seq.
     | (_, c) :: r => let '(s', rp) := spec_step c s in rp :: spec_trace r s'
     end.
 
+  (* admissibility of every command in the state it is applied to *)
+  Fixpoint adm_run (cs : list (Z * cmd)) (ms : mstate) : Prop :=
+    match cs with
+    | [] => True
+    | (ts, c) :: r => admissible ms c /\ adm_run r (fst (map_step compact ts c ms))
+    end.
+
   Theorem trace_ref cs : forall clock ms ss, simS clock ms ss -> 0 <= clock -> increasing clock cs ->
-    forallb (fun tc => covered (snd tc)) cs = true ->
+    forallb (fun tc => covered (snd tc)) cs = true -> adm_run cs ms ->
     map_trace cs ms = spec_trace cs ss /\ simS (last_ts clock cs) (map_run compact cs ms) (spec_run cs ss).
   Proof.
-    induction cs as [|[ts c] r IH]; intros clock ms ss S L I Cv; cbn [map_trace spec_trace map_run spec_run fold_left last_ts].
+    induction cs as [|[ts c] r IH]; intros clock ms ss S L I Cv Ad; cbn [map_trace spec_trace map_run spec_run fold_left last_ts].
     - split; [reflexivity|exact S].
     - destruct I as [I1 I2]. cbn [forallb snd] in Cv. apply andb_true_iff in Cv. destruct Cv as [C1 C2].
-      destruct (step_ref clock ts c ms ss S ltac:(lia) C1) as [E1 S1]. cbn [fst snd].
+      cbn [adm_run] in Ad. destruct Ad as [A1 A2].
+      destruct (step_ref clock ts c ms ss S ltac:(lia) C1 A1) as [E1 S1]. cbn [fst snd].
       destruct (map_step compact ts c ms) as [ms' r1]. destruct (spec_step c ss) as [ss' r2]. cbn [fst snd] in *.
-      destruct (IH ts ms' ss' S1 ltac:(lia) I2 C2) as [E2 S2]. split; [rewrite E1, E2; reflexivity|exact S2].
+      destruct (IH ts ms' ss' S1 ltac:(lia) I2 C2 A2) as [E2 S2]. split; [rewrite E1, E2; reflexivity|exact S2].
   Qed.
 End Seq.
 
 Theorem khs_all_sequences compact cs : increasing 0 cs -> forallb (fun tc => covered (snd tc)) cs = true ->
-  map_trace compact cs m_init = spec_trace cs s_init.
-Proof. intros I Cv. apply (trace_ref compact cs 0 m_init s_init); [apply simS_init|lia|exact I|exact Cv]. Qed.
+  adm_run compact cs m_init -> map_trace compact cs m_init = spec_trace cs s_init.
+Proof. intros I Cv Ad. apply (trace_ref compact cs 0 m_init s_init); [apply simS_init|lia|exact I|exact Cv|exact Ad]. Qed.
 
 (* ---------- Spec-level sanity lemmas (guards against a wrong reference model) ---------- *)
 (* SADD counts a repeated member once *)
